@@ -173,6 +173,18 @@ def coxeter_sampling(tier, rng, rep):
                         else:
                             if oc is not None:
                                 rep.fail("canonical_infinite_label_has_infinite_order", f"{g1}{g2}: order {oc}", {**inp, "route": route}); return
+                # the caller owns what a lookup returns: scribbling on a returned matrix does not change the representation
+                for rname, r_ in (("geometric", geo), ("canonical", can)):
+                    for g1 in gens:
+                        got = parse(r_, g1)
+                        keep = np.array(got, dtype=float, copy=True)
+                        try:
+                            got[...] = 0
+                        except (TypeError, ValueError):
+                            continue
+                        again = np.asarray(parse(r_, g1), dtype=float)
+                        if not np.all(np.abs(again - keep) <= 1e-12):
+                            rep.fail("generator_involution", f"{rname} representation: the image of {g1} changed after the caller edited the matrix an earlier lookup returned", {**inp, "route": route}); return
                 # hyperbolic representation when the form has signature (d, 1)
                 ev = np.linalg.eigvalsh(Bexp)
                 if (ev < -1e-9).sum() == 1 and (ev > 1e-9).sum() == rank - 1:
